@@ -185,7 +185,7 @@ Proof.
   - intros [v H]. now rewrite (dur_decode_complete_lemma _ _ H).
 Qed.
 
-Theorem dur_encode_lexical_lemma us : xsd_dur (dur_encode us) (trunc_s us) /\ dur_lexical (dur_encode us) = true.
+Theorem dur_encode_lexical_lemma us : xsd_dur (dur_encode us) us /\ dur_lexical (dur_encode us) = true.
 Proof.
   split; [apply dur_decode_sound_lemma, dur_decode_encode|]. unfold dur_lexical. now rewrite dur_decode_encode.
 Qed.
